@@ -36,7 +36,7 @@ pub fn prop() -> Prop {
     .random(
         "adversaries",
         check,
-        |t| if t == Tier::Quick { 24_000 } else { 160_000 },
+        |t| if t == Tier::Quick { 24_000 } else { 100_000 },
         |t| if t == Tier::Quick { 400 } else { 700 },
     )
     .text(check_plain_text)
